@@ -355,6 +355,13 @@ def run_one(ck, prog):
         if offset_var is not None:
             ok, idx = True, [0]
         ck.ob("C15.4", f"{label}|advance-by-exactly-n", ok and len(idx) == 1, fn=fname, detail="the buffer must be re-sliced with [n..] (or an offset advanced by n), n being exactly the count the call just reported")
+        # the reader / writer is asked only while something is still missing: the call is dominated by `!buf.is_empty()` (or offset != len) -
+        # an extra zero-length call after the last byte consumes a response that belongs to the caller's next operation
+        for cb_ in calls:
+            fs_ = panics.dominating_facts(ctx, cb_)
+            wanted = any(f[0] == "truth" and f[2] is False and isinstance(f[1], tuple) and f[1][0] == "call" and (f[1][1] or "").endswith("::is_empty") for f in fs_) or \
+                any(f[0] == "cmp" and f[1] in ("Ne", "Lt", "Gt") and offset_var is not None and any(isinstance(strip_casts(x), tuple) and strip_casts(x)[0] == "var" and strip_casts(x)[1] == offset_var[1] for x in (f[2], f[3])) for f in fs_)
+            ck.ob("C15.4", f"{label}|called-only-while-something-is-missing", wanted, fn=fname, site=ctx.site(cb_), detail="the transfer call can be made with nothing left to transfer (an empty buffer): one call too many")
         # Ok(()) only when the buffer is empty
         oks = [b["id"] for b in fn["blocks"] if b["id"] in cfg.live_blocks() and not b.get("cleanup") and any(s["k"] == "assign" and s["dst"]["l"] == 0 and s["rv"]["k"] == "agg" and s["rv"].get("variant") == "Ok" for s in b["stmts"])]
         for ob in oks:
